@@ -149,7 +149,7 @@ def apply_rewrites(g, wd):
 
 
 def common_includes(arch):
-    inc = ["-I", os.path.join(REPO, "include"), "-I", os.path.join(REPO, "src"),
+    inc = ["-I", os.path.join(REPO, "include"), "-I", os.path.join(REPO, "src"), "-I", REPO,
            "-I", os.path.join(VERIF, "include"), "-I", VERIF]
     if arch == 32:
         inc = ["-m32", "-I", os.path.join(VERIF, "shim32"),
@@ -531,7 +531,7 @@ def native_lib(pid, g, env):
         files = m.group(1).split() if m else []
         if not files:
             raise Infra("cannot read the source list from src/CMakeLists.txt")
-        base = ["gcc", "-g", "-O1", "-fsanitize=address,undefined", "-fno-sanitize-recover=undefined",
+        base = ["gcc", "-g", "-O1", "-fsanitize=address,undefined", "-fno-sanitize=alignment", "-fno-sanitize-recover=undefined",
                 "-fno-omit-frame-pointer", "-w", "-c", "-I", os.path.join(REPO, "include"),
                 "-I", os.path.join(REPO, "src")]
         if g["ndebug"]:
@@ -560,7 +560,7 @@ def native_build(g, wd, env):
     if os.path.exists(exe):
         return exe
     rw = {}
-    inc = ["-I", os.path.join(REPO, "include"), "-I", os.path.join(REPO, "src"),
+    inc = ["-I", os.path.join(REPO, "include"), "-I", os.path.join(REPO, "src"), "-I", REPO,
            "-I", os.path.join(VERIF, "include"), "-I", VERIF]
     defs = ["-DVERIF_NATIVE", "-DHARNESS=" + g["entry"]] + ["-D" + d for d in g["defs"]] + \
         ["-D" + d for d in g["native_defs"]]
@@ -570,7 +570,7 @@ def native_build(g, wd, env):
         defs.append("-DSAFE_FAST")
     srcs = g["native_srcs"] if g["native_srcs"] is not None else g["srcs"]
     lib = native_lib(g.get("_pid", "X"), g, env)
-    base = ["gcc", "-g", "-O1", "-fsanitize=address,undefined", "-fno-sanitize-recover=undefined",
+    base = ["gcc", "-g", "-O1", "-fsanitize=address,undefined", "-fno-sanitize=alignment", "-fno-sanitize-recover=undefined",
             "-fno-omit-frame-pointer", "-w"] + inc + defs
     objs = []
     units = [(os.path.join(VERIF, g["harness"]), []), (os.path.join(VERIF, "lib/native_rt.c"), [])] + \
